@@ -170,6 +170,15 @@ func init() {
 			own = closes == 1 && inRemove == 1 && removes > 0 && removes == deferred
 		}
 		o.def("notificationChannelClosedOnlyByItsWaiter", "Bool", lbool(own), "Notificator closes a channel in Remove only, and every Remove in the storage packages is the deferred clean-up of the goroutine that created the channel and waits on it")
+		// C03 / C06: the size-limited scan of the stored log stops at the first entry that does not fit (after
+		// the first one) — it never steps over an entry and goes on
+		scan := false
+		if fd := funcDecl(parseFile("storage/wal/badger.go"), "badgerWAL", "getEntries"); fd != nil {
+			b := norm(fd.Body)
+			scan = strings.Contains(b, "ifbytes.Compare(item.Key(),endKey)>=0{break}size+=uint64(entry.Size())ifsize>maxSize&&!first{break}first=falseentries=append(entries,entry)}returnnil") &&
+				strings.Count(b, "continue") == 0
+		}
+		o.def("walScanStopsAtTheLimit", "Bool", lbool(scan), "badgerWAL.getEntries: the scan loop adds an entry's size, breaks when the sum exceeds maxSize (unless it is the first entry) and has no continue — the shape of Model/Wal's getEntries.go")
 		o.def("replicaChangeChecksGroupLoaded", "Bool", lbool(guard), "partition.proposeAddNode / proposeRemoveNode look at the partition's raft group under raftMu and return RaftNotLoadedOnNodeErr when it is not loaded (the catalogue change before may have unloaded it)")
 		o.def("replicaAddAppliedUnconditionally", "Bool", lbool(uncond), "partition.addNode lists the node first and unconditionally; loading the raft group comes after and cannot undo the listing")
 	})
